@@ -18,7 +18,7 @@ CHECK = {
     ],
     "bounds": {
         "quick": "match: 141 entries (47 names, mixed-case label in names of depth<=2) lists<=3 x 341 names, ServeDNS on all names x 5 qtypes for lists<=2, on depth<=1 names for 3-entry lists; persist: 8 ops, pairs x3 initial lists + triples x2 initial lists, preemption bound 2; crash: 9 ops, histories of length<=3, process-crash + power-loss + fault at every op (plain and short write); roundtrip lists<=3 over 40 entries",
-        "thorough": "match: 252 entries (84 names) lists<=3 x 341 names with ServeDNS on every name (rotating qtype), plus lists<=4 over 60 entries; persist: 12 ops, pairs x3 at bound 3, triples x3 at bound 2, triples of the 8 quick ops at bound 3; crash: 13 ops, histories of length<=4; roundtrip lists<=2 over 168 entries and <=4 over 40 entries",
+        "thorough": "match: 252 entries (84 names) lists<=3 x 341 names with ServeDNS on every name of depth<=3 (rotating qtype), plus lists<=4 over 60 entries; persist: 12 ops, pairs x3 at bound 3, triples x3 at bound 2, triples of the 8 quick ops at bound 3; crash: 13 ops, histories of length<=4; roundtrip lists<=2 over 168 entries and <=4 over 40 entries",
     },
     "units": {
         "match": {"pkg": "middleware/blocklist", "run": "TestVerifC18Match", "harness": _H,
